@@ -111,6 +111,7 @@ class Actor:
         self.s = None
         self.sol = None
         self.prog = 0
+        self.env.setdefault("actors", []).append(self)
 
     def do(self, op):
         with quiet():
@@ -132,6 +133,15 @@ class Actor:
             elif op == "L":
                 self.s.DoLocalRefinement(4)
                 self.sol = self.s.GetResults()
+            elif op == "P":
+                # a read-only query of this solver's evolvent about the points the OTHER solvers report as their optima
+                # (the arrays themselves are handed over, as a user comparing solvers would)
+                for other in self.env.get("actors", []):
+                    if other is not self and other.s is not None and other.p.log:
+                        pt = other.s.GetResults().bestTrials[0].point.floatVariables
+                        if len(pt) == self.spec["N"]:
+                            self.s.evolvent.GetPreimages(pt)
+                            self.s.evolvent.GetInverseImage(pt)
             elif op == "r":
                 self.s.GetResults()
         self.prog += 1
@@ -426,6 +436,10 @@ def run(ctx):
     for N in (1, 2):
         tasks += shared("problem", (N, N), ("neg", "neg"), ["c", "i", "i", "L", "i", "r"])
         tasks += shared("own", (N, N), ("neg", "quad0"), ["c", "i", "i", "L", "i", "r"])
+    # read-only evolvent queries about the other solver's reported optimum
+    for N in (1, 2):
+        sp = [dict(f="neg", N=N, box="B1", r=2.0, eps=0.05, limit=8), dict(f="quad0", N=N, box="B1", r=3.0, eps=0.05, limit=8)]
+        tasks += [dict(specs=sp, ops=["c", "i", "i", "P", "i", "r"], first=None)]
     # two live solvers of different dimensions, both >= 2
     for dims in ((2, 3), (3, 2), (4, 2)):
         tasks += shared("own", dims, ("mono", "quad0"), ["c", "i", "i", "S", "r"])
